@@ -479,6 +479,145 @@ theorem style_attr_wins (ds : List (α × Weight)) (p : Nat) (d : α × Weight) 
           | mk pr sp => rw [hm2] at hpe hs; simp at hpe hs; rw [hpe, hs]
         · rw [hs] at hdm; simp [pyListLe] at hdm
 
+/-! ### the cascade order is a strict total order, and the fold returns its maximum -/
+
+/-- `i` comes strictly before `j` in the cascade's sort order: lighter weight, or equal weight and
+earlier in application (source) order. -/
+def cascadeBefore (ws : List Weight) (i j : Nat) : Prop :=
+  ∃ a b, ws[i]? = some a ∧ ws[j]? = some b ∧
+    ((a.le b = true ∧ b.le a = false) ∨ (a = b ∧ i < j))
+
+/-- The cascade order — (origin and importance, style attribute, specificity), then source
+index — is a strict total order on the declarations of one property: any two different
+declarations are comparable, never both ways. -/
+theorem cascade_order_total (ws : List Weight) (i j : Nat) (hi : i < ws.length) (hj : j < ws.length)
+    (hne : i ≠ j) : (cascadeBefore ws i j ∨ cascadeBefore ws j i) ∧
+      ¬ (cascadeBefore ws i j ∧ cascadeBefore ws j i) := by
+  have ha : ws[i]? = some ws[i] := List.getElem?_eq_getElem hi
+  have hb : ws[j]? = some ws[j] := List.getElem?_eq_getElem hj
+  constructor
+  · cases hab : (ws[i]).le ws[j] <;> cases hba : (ws[j]).le ws[i]
+    · rcases weight_le_total ws[i] ws[j] with h | h <;> simp_all
+    · right; exact ⟨_, _, hb, ha, Or.inl ⟨hba, hab⟩⟩
+    · left; exact ⟨_, _, ha, hb, Or.inl ⟨hab, hba⟩⟩
+    · have he := weight_le_antisymm _ _ hab hba
+      rcases Nat.lt_or_gt_of_ne hne with h | h
+      · left; exact ⟨_, _, ha, hb, Or.inr ⟨he, h⟩⟩
+      · right; exact ⟨_, _, hb, ha, Or.inr ⟨he.symm, h⟩⟩
+  · rintro ⟨⟨a, b, h1, h2, h3⟩, ⟨b', a', h4, h5, h6⟩⟩
+    rw [h1] at h5; rw [h2] at h4
+    cases h5; cases h4
+    rcases h3 with ⟨x1, x2⟩ | ⟨e1, l1⟩ <;> rcases h6 with ⟨y1, y2⟩ | ⟨e2, l2⟩
+    · rw [x1] at y2; cases y2
+    · subst e2; rw [x1] at x2; cases x2
+    · subst e1; rw [y1] at y2; cases y2
+    · omega
+
+theorem cascade_order_trans (ws : List Weight) (i j k : Nat) (h1 : cascadeBefore ws i j)
+    (h2 : cascadeBefore ws j k) : cascadeBefore ws i k := by
+  obtain ⟨a, b, ha, hb, hab⟩ := h1
+  obtain ⟨b', c, hb', hc, hbc⟩ := h2
+  rw [hb] at hb'; cases hb'
+  refine ⟨a, c, ha, hc, ?_⟩
+  rcases hab with ⟨x1, x2⟩ | ⟨e1, l1⟩ <;> rcases hbc with ⟨y1, y2⟩ | ⟨e2, l2⟩
+  · left
+    refine ⟨weight_le_trans _ _ _ x1 y1, ?_⟩
+    cases hca : c.le a with
+    | false => rfl
+    | true => have := weight_le_trans _ _ _ hca x1; rw [this] at y2; cases y2
+  · subst e2; left; exact ⟨x1, x2⟩
+  · subst e1; left; exact ⟨y1, y2⟩
+  · subst e1; subst e2; right; exact ⟨rfl, by omega⟩
+
+
+/-- Index form of the fold's result: it sits at some position `i`, nothing outweighs it, and
+everything after `i` is strictly lighter. -/
+theorem fold_index_spec (ds : List (α × Weight)) (m : α × Weight) (h : foldOne ds = some m) :
+    ∃ i : Nat, ds[i]? = some m ∧ (∀ (j : Nat) (e : α × Weight), ds[j]? = some e → e.2.le m.2 = true) ∧
+      (∀ (j : Nat) (e : α × Weight), i < j → ds[j]? = some e → m.2.le e.2 = false) := by
+  induction ds using snoc_induction generalizing m with
+  | nil => simp [foldOne] at h
+  | snoc ds d ih =>
+    rw [foldOne_append] at h
+    cases hf : foldOne ds with
+    | none =>
+      have hnil : ds = [] := (winner_none_iff ds).mp (by rw [← fold_eq_winner]; exact hf)
+      subst hnil
+      rw [hf] at h
+      simp only [foldStep, Option.some.injEq] at h
+      subst h
+      refine ⟨0, by simp, ?_, ?_⟩
+      · intro j e he
+        cases j with
+        | zero => simp at he; subst he; exact weight_le_refl _
+        | succ n => simp at he
+      · intro j e hj he
+        cases j with
+        | zero => omega
+        | succ n => simp at he
+    | some m0 =>
+      rw [hf] at h
+      obtain ⟨i, hi, hmax, hlater⟩ := ih m0 hf
+      have hilt : i < ds.length := by
+        have := List.getElem?_eq_some_iff.mp hi; exact this.1
+      simp only [foldStep] at h
+      by_cases hle : m0.2.le d.2 = true
+      · simp only [hle, if_true, Option.some.injEq] at h
+        subst h
+        refine ⟨ds.length, by simp, ?_, ?_⟩
+        · intro j e he
+          by_cases hj : j < ds.length
+          · rw [List.getElem?_append_left hj] at he
+            exact weight_le_trans _ _ _ (hmax j e he) hle
+          · have : j = ds.length ∨ ds.length < j := by omega
+            rcases this with rfl | hgt
+            · simp at he; subst he; exact weight_le_refl _
+            · rw [List.getElem?_eq_none (by simp; omega)] at he; cases he
+        · intro j e hj he
+          rw [List.getElem?_eq_none (by simp; omega)] at he; cases he
+      · have hle' : m0.2.le d.2 = false := by simpa using hle
+        simp only [hle', Bool.false_eq_true, if_false, Option.some.injEq] at h
+        subst h
+        refine ⟨i, by rw [List.getElem?_append_left hilt]; exact hi, ?_, ?_⟩
+        · intro j e he
+          by_cases hj : j < ds.length
+          · rw [List.getElem?_append_left hj] at he
+            exact hmax j e he
+          · have : j = ds.length ∨ ds.length < j := by omega
+            rcases this with rfl | hgt
+            · simp at he; rw [← he]
+              rcases weight_le_total m0.2 d.2 with h' | h'
+              · rw [hle'] at h'; cases h'
+              · exact h'
+            · rw [List.getElem?_eq_none (by simp; omega)] at he; cases he
+        · intro j e hij he
+          by_cases hj : j < ds.length
+          · rw [List.getElem?_append_left hj] at he
+            exact hlater j e hij he
+          · have : j = ds.length ∨ ds.length < j := by omega
+            rcases this with rfl | hgt
+            · simp at he; rw [← he]; exact hle'
+            · rw [List.getElem?_eq_none (by simp; omega)] at he; cases he
+
+/-- The cascaded value is the *maximum* of the strict total order `cascadeBefore`: every other
+declaration of the property comes before the winner (lighter, or equally heavy and earlier). -/
+theorem winner_is_maximum (ds : List (α × Weight)) (m : α × Weight) (h : winner ds = some m) :
+    ∃ i : Nat, ds[i]? = some m ∧
+      ∀ j : Nat, j ≠ i → j < ds.length → cascadeBefore (ds.map (fun d => d.2)) j i := by
+  rw [← fold_eq_winner] at h
+  obtain ⟨i, hi, hmax, hlater⟩ := fold_index_spec ds m h
+  refine ⟨i, hi, ?_⟩
+  intro j hne hj
+  have hje : ds[j]? = some ds[j] := List.getElem?_eq_getElem hj
+  have h1 := hmax j _ hje
+  refine ⟨(ds[j]).2, m.2, by simp [hje], by simp [hi], ?_⟩
+  rcases Nat.lt_or_gt_of_ne hne with hlt | hgt
+  · cases hm : m.2.le (ds[j]).2 with
+    | false => left; exact ⟨h1, rfl⟩
+    | true => right; exact ⟨weight_le_antisymm _ _ h1 hm, hlt⟩
+  · left; exact ⟨h1, hlater j _ hgt hje⟩
+
+
 /-! ### the matcher's sort -/
 
 private theorem pyListLt_eq_not_le (a b : List Nat) : pyListLt a b = !pyListLe b a := by
@@ -612,7 +751,7 @@ theorem not_cascaded_inherits (e : Elem) (get : String → Except CErr Val) (key
   obtain ⟨htd, hpage⟩ := hp
   have hinh : (isInherited key || isCustom key) = true := by
     rcases hi with h | h <;> simp [h]
-  unfold specified
+  unfold specified specified123 specified4
   simp [hc, hinh, Val.isKw, parentValue, htd, hpage]
   cases get key <;> rfl
 
@@ -628,7 +767,7 @@ theorem not_cascaded_initial (e : Elem) (parent : ParentGet) (key : String)
     (hc : lookup key e.cascaded = none) (hi : isInherited key = false) (hcu : isCustom key = false)
     (htd : isTextDecoration key = false ∨ parent = none) (hpage : key ≠ "page") :
     specified e parent key = initialResult key := by
-  unfold specified initialResult
+  unfold specified specified123 specified4 initialResult
   have htd' : (isTextDecoration key && parent.isSome) = false := by
     rcases htd with h | h <;> simp [h]
   simp [hc, hi, hcu, Val.isKw, htd', hpage]
@@ -639,7 +778,7 @@ theorem not_cascaded_initial (e : Elem) (parent : ParentGet) (key : String)
 theorem inherit_on_root (e : Elem) (key : String)
     (hc : lookup key e.cascaded = some (.val (.kw "inherit"))) (hpage : key ≠ "page") :
     specified e none key = initialResult key := by
-  unfold specified initialResult
+  unfold specified specified123 specified4 initialResult
   simp [hc, Val.isKw, hpage]
   by_cases hcu : isCustom key = true
   · simp [hcu]
@@ -653,7 +792,7 @@ theorem initial_honoured (e : Elem) (parent : ParentGet) (key : String)
     (hc : lookup key e.cascaded = some (.val (.kw "initial")))
     (htd : isTextDecoration key = false ∨ parent = none) (hpage : key ≠ "page") :
     specified e parent key = initialResult key := by
-  unfold specified initialResult
+  unfold specified specified123 specified4 initialResult
   have htd' : (isTextDecoration key && parent.isSome) = false := by
     rcases htd with h | h <;> simp [h]
   simp [hc, Val.isKw, hpage, htd']
@@ -668,7 +807,7 @@ theorem inherit_honoured (e : Elem) (get : String → Except CErr Val) (key : St
     (hc : lookup key e.cascaded = some (.val (.kw "inherit"))) (hp : plainKey key) :
     specified e (some get) key = (get key).map (fun v => (v, true)) := by
   obtain ⟨htd, hpage⟩ := hp
-  unfold specified
+  unfold specified specified123 specified4
   simp [hc, Val.isKw, parentValue, htd, hpage]
   cases get key <;> rfl
 
@@ -678,7 +817,7 @@ theorem cascaded_value_used (e : Elem) (parent : ParentGet) (key : String) (v : 
     (h1 : v.isKw "inherit" = false) (h2 : v.isKw "initial" = false)
     (htd : isTextDecoration key = false ∨ parent = none) (hpage : key ≠ "page") :
     specified e parent key = .ok (v, false) := by
-  unfold specified
+  unfold specified specified123 specified4
   have htd' : (isTextDecoration key && parent.isSome) = false := by
     rcases htd with h | h <;> simp [h]
   simp [hc, h1, h2, hpage, htd']
@@ -719,7 +858,7 @@ theorem pending_invalid_inherits (e : Elem) (get : String → Except CErr Val) (
     (hv : ∀ v, get key = .ok v → v.isKw "inherit" = false ∧ v.isKw "initial" = false) :
     specified e (some get) key = (get key).map (fun v => (v, true)) := by
   have hp := inherited_plain key (by simpa [isInherited] using hi)
-  unfold specified
+  unfold specified specified123 specified4
   simp [hc, hi, parentValue, hp.1, hp.2.1]
   cases hg : get key with
   | error err => rfl
@@ -737,7 +876,7 @@ theorem pending_invalid_initial (e : Elem) (parent : ParentGet) (key : String)
     rcases hi with h | h <;> simp [h]
   have htd' : (isTextDecoration key && parent.isSome) = false := by
     rcases htd with h | h <;> simp [h]
-  unfold specified
+  unfold specified specified123 specified4
   simp [hc, hi', htd', hpage]
   cases hiv : initialValue key with
   | error err => rfl
@@ -754,7 +893,7 @@ theorem pending_valid_partial (e e' : Elem) (parent : ParentGet) (key : String) 
     (hc' : lookup key e'.cascaded = some (.val v))
     (hv : v.isKw "inherit" = false ∨ parent.isSome = true) :
     specified e parent key = specified e' parent key := by
-  unfold specified
+  unfold specified specified123 specified4
   rcases hv with h | h
   · simp [hc, hc', h]
   · have h' : parent.isNone = false := by cases parent <;> simp_all
@@ -792,6 +931,66 @@ theorem child_style_uses_parent_and_root (rf : Unit → Except CErr Rat) (ex ch 
     styleAtWith rf ex ch (e :: p :: rest) =
       styleKey e (some (styleAtWith rf ex ch (p :: rest))) rf ex ch := rfl
 
+
+/-! ### every property of the generated tables -/
+
+/-- The generated `INITIAL_VALUES` table has an entry for every key (the two generated lists are
+the same dict). -/
+theorem initial_table_complete : initialKeys = initialValues.map (fun p => p.1) := by rfl
+
+private theorem lookup_of_mem_keys {β : Type} (l : List (String × β)) (k : String)
+    (h : k ∈ l.map (fun p => p.1)) : ∃ v, lookup k l = some v := by
+  induction l with
+  | nil => simp at h
+  | cons p rest ih =>
+    obtain ⟨a, b⟩ := p
+    simp only [lookup]
+    by_cases hak : (a == k) = true
+    · exact ⟨b, by simp [hak]⟩
+    · simp only [hak, Bool.false_eq_true, if_false]
+      apply ih
+      simp only [List.map_cons, List.mem_cons] at h
+      rcases h with h | h
+      · exfalso; apply hak; simp [h]
+      · exact h
+
+/-- Every property has an initial value: `INITIAL_VALUES[key]` never raises for a real property. -/
+theorem initial_value_total (key : String) (h : key ∈ initialKeys) : ∃ v, initialValue key = .ok v := by
+  rw [initial_table_complete] at h
+  obtain ⟨v, hv⟩ := lookup_of_mem_keys initialValues key h
+  exact ⟨v, by unfold initialValue; rw [hv]⟩
+
+/-- `inherit`/`initial`/absence for *every* property of the generated table, on the root and
+below it: the result is never a failure of the cascade machinery itself. -/
+theorem every_property_resolves_on_root (e : Elem) (key : String) (h : key ∈ initialKeys)
+    (hc : lookup key e.cascaded = none ∨ lookup key e.cascaded = some (.val (.kw "inherit")) ∨
+          lookup key e.cascaded = some (.val (.kw "initial")))
+    (hcu : isCustom key = false) (hpage : key ≠ "page") :
+    ∃ v st, specified e none key = .ok (v, st) ∧ initialValue key = .ok v := by
+  obtain ⟨v, hv⟩ := initial_value_total key h
+  refine ⟨v, !(initialNotComputed.contains key), ?_, hv⟩
+  have hres : initialResult key = .ok (v, !(initialNotComputed.contains key)) := by
+    unfold initialResult; simp [hcu, hv, Except.map]
+  rcases hc with hc | hc | hc
+  · by_cases hi : isInherited key = true
+    · -- inherited: 'inherit' on the root becomes 'initial'
+      have : specified e none key = initialResult key := by
+        unfold specified specified123 specified4 initialResult
+        simp [hc, hi, hcu, hpage]
+        cases initialValue key <;> cases hh : initialNotComputed.contains key <;> simp_all <;> rfl
+      rw [this, hres]
+    · have hi' : isInherited key = false := by simpa using hi
+      rw [not_cascaded_initial e none key hc hi' hcu (Or.inr rfl) hpage, hres]
+  · rw [inherit_on_root e key hc hpage, hres]
+  · rw [initial_honoured e none key hc (Or.inr rfl) hpage, hres]
+
+/-- Every property of the generated `INHERITED` set, when no declaration applies below the root,
+takes the parent's computed value as it is. -/
+theorem every_inherited_property_inherits (e : Elem) (get : String → Except CErr Val) (key : String)
+    (h : key ∈ inherited) (hc : lookup key e.cascaded = none) :
+    specified e (some get) key = (get key).map (fun v => (v, true)) := by
+  have hp := inherited_plain key h
+  exact not_cascaded_inherits e get key hc (Or.inl (by simpa [isInherited] using h)) ⟨hp.1, hp.2.1⟩
 
 /-! ## 4. relative_values -/
 
@@ -1447,6 +1646,43 @@ theorem preprocess_style (device : String) (ig : Bool) (id n : Nat) (rest : List
     preprocess device ig (.style id n :: rest) =
       (List.range n).map (fun i => (id, i)) ++ preprocess device true rest := by
   rw [preprocess.eq_def]
+
+/-- Every `add_selector` call the sheet could ever make, in document order: all style rules of the
+sheet, of every `@media` block and of every imported sheet, whatever the media type. -/
+def allAdded : List SRule → List Added
+  | [] => []
+  | r :: rest =>
+    match r with
+    | .style id n => (List.range n).map (fun i => (id, i)) ++ allAdded rest
+    | .importRule _ (some sheet) => allAdded sheet ++ allAdded rest
+    | .mediaRule _ body => allAdded body ++ allAdded rest
+    | _ => allAdded rest
+
+/-- "then source order across all sheets including @import": what reaches the matcher is a
+subsequence of the document-order traversal — rules are dropped (media, late or failed imports,
+invalid rules) but never reordered or duplicated, at any nesting depth. -/
+theorem preprocess_preserves_source_order (device : String) (ig : Bool) (rules : List SRule) :
+    (preprocess device ig rules).Sublist (allAdded rules) := by
+  fun_induction preprocess device ig rules
+  case case5 rest m sheet ih =>
+    cases sheet with
+    | none => simpa only [allAdded] using ih
+    | some sh => simp only [allAdded]; exact ih.trans (List.sublist_append_right _ _)
+  case case6 ig rest _ sheet ih =>
+    cases sheet with
+    | none => simpa only [allAdded] using ih
+    | some sh => simp only [allAdded]; exact ih.trans (List.sublist_append_right _ _)
+  all_goals (try simp only [allAdded])
+  all_goals first
+    | assumption
+    | exact List.Sublist.refl _
+    | exact List.Sublist.append (List.Sublist.refl _) (by assumption)
+    | exact List.Sublist.append (by assumption) (by assumption)
+    | exact List.Sublist.trans (by assumption) (List.sublist_append_right _ _)
+
+example : allAdded [.importRule none (some [.style 1 2]), .mediaRule (some ["screen"]) [.style 4 1], .style 2 1]
+    = [(1, 0), (1, 1), (4, 0), (2, 0)] := by
+  simp [allAdded]; decide
 
 /-! ## non-vacuity -/
 
